@@ -119,6 +119,9 @@ def replay_leg(st, col, corrupt=None):
                     warnings.simplefilter('ignore')
                     if op == 'chinfo':
                         ci = HL.chinfo(l['mod'])
+                        if final:
+                            _chinfo_probe(ci, l, n, fail)
+                            col.case(key, 'Charges.chinfo')
                         continue
                     elif op in ('init', 'from_qind', 'from_qflat'):
                         L = HL.build_leg(ci, l, op)
@@ -188,6 +191,26 @@ def replay_leg(st, col, corrupt=None):
         col.behaviours += 1
     except Stop:
         pass
+
+
+def _chinfo_probe(ci, l, n, fail):
+    import numpy as np
+    q = len(l['mod'])
+    if int(ci.qnumber) != q or [int(m) for m in ci.mod] != list(l['mod']):
+        fail('chinfo', 'qnumber/mod', n, got=[int(m) for m in ci.mod], exp=list(l['mod']))
+    for v, w, ok in zip(l['probes'], l['make_valid'], l['check_valid']):
+        arr = np.array(list(v), dtype=np.int64).reshape((q,))
+        got = [int(x) for x in ci.make_valid(arr.copy())]
+        if got != list(w):
+            fail('chinfo', 'make_valid', n, got=dict(v=list(v), res=got), exp=list(w))
+        g2 = [[int(x) for x in row] for row in ci.make_valid(np.array([list(v), list(v)], dtype=np.int64).reshape((2, q)))]
+        if g2 != [list(w), list(w)]:
+            fail('chinfo', 'make_valid(2D)', n, got=g2, exp=list(w))
+        if bool(ci.check_valid(arr.reshape((1, q)))) != ok:
+            fail('chinfo', 'check_valid', n, got=dict(v=list(v), res=not ok), exp=ok)
+    z = ci.make_valid()
+    if [int(x) for x in z] != [0] * q:
+        fail('chinfo', 'make_valid(None)', n, got=[int(x) for x in z])
 
 
 def _leg_query(L, l, n, fail):
@@ -601,7 +624,7 @@ def _work(args):
         phase = pm.group(1) if pm else None
         if kind == 'pipe' and phase != 'pipe':
             continue
-        if kind == 'leg' and phase not in ('leg', 'done'):
+        if kind == 'leg' and phase not in ('new', 'leg', 'done'):
             continue
         if sample_mod > 1 and (beg + m.start() + sample_off) % sample_mod != 0:
             col.note('states_not_sampled')
@@ -633,7 +656,7 @@ class Pools:
 
     def close(self):
         for p in (self.pc, self.pp):
-            p.close()
+            p.terminate()
             p.join()
 
     def replay_dump(self, ctx, path, kind, sample_mod=1):
@@ -646,7 +669,10 @@ class Pools:
             jobs.append((pool.apply_async(_work, (args,)), pool is self.pp))
         tot = dict(compiled=0, python=0)
         for j, is_py in jobs:
-            col = j.get()
+            try:
+                col = j.get(timeout=3000)
+            except multiprocessing.TimeoutError:
+                raise core.MachineryError('replay worker did not finish (crashed interpreter?)')
             merge(ctx, col)
             tot['python' if is_py else 'compiled'] += col.behaviours
             if (col.notes_kernel == 'python') != (is_py or bool(os.environ.get('TENPY_NO_CYTHON'))):
@@ -669,7 +695,7 @@ def merge(ctx, col):
 # ------------------------------------------------------------------------------------------------
 # configurations
 # ------------------------------------------------------------------------------------------------
-CH_INV = ['ChargePreserved', 'FlagsTruthful', 'LegValid', 'ConjContractible', 'OpPost']
+CH_INV = ['ChargeInfoLaws', 'ChargePreserved', 'FlagsTruthful', 'LegValid', 'ConjContractible', 'OpPost']
 CH_PROP = ['ShortCutSound']
 P_INV = ['PipeBijection', 'FusionRule', 'OutValid', 'SortedOut', 'BunchedOut', 'BlockedOut', 'OutFlagsTruthful',
          'QMapOrdered', 'MapIsKeyRank', 'ConjKeepsContractible', 'OuterConjKeepsEffectiveCharge', 'SplitAfterCombine',
